@@ -35,7 +35,9 @@ type tmpl struct {
 
 var argPool = []string{"1", "x", "2-1", "a || b", "println(\"side\")", "y = 5", "f(3)", "[1,2]", "n => n*2", "-4", "\"s\"", "x++", "1+2*3", "a == b", "{1:2}", "if c {1} else {2}", "z[0]", "q.r",
 	// nodes without children (a tree rewrite may hand them out unshared or shared): empty composite literals, empty-bodied lambdas, bare calls
-	"[]", "{}", "() => {}", "f()", "[[]]", "{1:{}}", "\"\"", "nil", "true"}
+	"[]", "{}", "() => {}", "f()", "[[]]", "{1:{}}", "\"\"", "nil", "true",
+	// literals whose source text is not their canonical spelling (the substituted tree keeps the text the user wrote)
+	"0x10", "0xff", "0b101", "1_000", "007", "1e3", "2.", ".5", "1_0.5", "`raw`", "\"\\x41\"", "9223372036854775807", "0x7fffffffffffffff"}
 
 func genTemplate(c *Ctx) tmpl { return genTemplateN(c, c.R.Intn(5)) }
 
